@@ -1,5 +1,6 @@
 """C07 Remote memory reads and writes are byte-exact."""
 import base64
+import os
 import struct
 
 from hypothesis import strategies as st
@@ -113,6 +114,13 @@ def strat_ops(draw, tier, faults):
             "vcpu_base": draw(st.sampled_from([scamp.VCPU_BASE, 0xe5008200,
                                                0x67700000])),
             "ops": ops, "plan": []}
+    # the first thing the program does may be to ask an application core for
+    # its software version (that core may advertise another buffer size)
+    if draw(st.integers(0, 3)) == 0:
+        case["first_sver"] = [draw(st.sampled_from([0, 1])), 0,
+                              draw(st.sampled_from([1, 2, 17]))]
+        case["app_buffer"] = draw(st.sampled_from([None, 2 * buf,
+                                                   max(8, buf // 2)]))
     if faults:
         pe = plan_entry().filter(lambda e: all(r[0] != "fatal"
                                                for r in e["replies"]))
@@ -162,6 +170,14 @@ def check_ops(case):
             mc = w.controller()
             if case["window"] is not None:
                 mc._window_size = case["window"]
+        if case.get("first_sver"):
+            m.app_buffer_size = case.get("app_buffer")
+            try:
+                with sut("get_software_version", (SCPError,)):
+                    mc.get_software_version(*case["first_sver"])
+            except SCPError:
+                pass
+            classes.add("sver-first")
         for op in case["ops"]:
             kind = op["op"]
             chip = _chip(m, op)
@@ -380,6 +396,135 @@ RULE = ("1-6/10 operations (read, write, fill, struct and per-core fields, "
         "non-multiples of 4; non-trivial = a transfer spanning >= 2 chunks or "
         "with an unaligned start or end, or a per-core access to core > 0")
 
+# ---------------------------------------------- caller-supplied struct files
+
+PACKS = {"C": ("<B", 1, 0xff), "v": ("<H", 2, 0xffff),
+         "V": ("<I", 4, 0xffffffff)}
+
+
+def _numtext(n, style):
+    return ("0x%x" % n) if style == "hex" else ("0x%02X" % n) \
+        if style == "HEX" else str(n)
+
+
+@st.composite
+def strat_structs(draw, tier):
+    """A struct definition file of the caller's own (the documented format:
+    name/size/base headers and `field pack offset printf default` lines with
+    numbers in decimal or 0x-hexadecimal) appended to the stock file, then
+    reads and writes of its fields."""
+    structs = []
+    for si in range(draw(st.integers(1, 2))):
+        style = draw(st.sampled_from(["hex", "dec", "dec", "HEX", "mixed"]))
+        fields = []
+        off = draw(st.integers(0, 12))
+        for fi in range(draw(st.integers(1, 7))):
+            pack = draw(st.sampled_from(["C", "v", "V", "V"]))
+            count = draw(st.sampled_from([1, 1, 1, 2, 3]))
+            size = PACKS[pack][1] * count
+            fields.append({"name": "f%d" % fi, "pack": pack, "count": count,
+                           "offset": off,
+                           "style": style if style != "mixed" else
+                           draw(st.sampled_from(["hex", "dec"])),
+                           "default": draw(st.integers(0, 200))})
+            off += size + draw(st.sampled_from([0, 0, 1, 2, 4, 9]))
+        structs.append({"name": "own%d" % si, "fields": fields,
+                        "size": off, "style": style,
+                        "base": BASE + 0x40 + 0x200 * si +
+                        4 * draw(st.integers(0, 16))})
+    ops = []
+    for _ in range(draw(st.integers(1, 8))):
+        s_ = draw(st.sampled_from(structs))
+        f = draw(st.sampled_from(s_["fields"]))
+        top = PACKS[f["pack"]][2]
+        ops.append({"write": draw(st.booleans()), "struct": s_["name"],
+                    "field": f["name"],
+                    "chip": draw(st.sampled_from([[0, 0], [1, 0], [1, 1]])),
+                    "values": [draw(st.one_of(st.integers(0, top),
+                                              st.just(top)))
+                               for _ in range(f["count"])]})
+    return {"buffer": draw(st.sampled_from([32, 256])), "structs": structs,
+            "ops": ops}
+
+
+def struct_text(structs):
+    lines = []
+    for s_ in structs:
+        st_ = s_["style"] if s_["style"] != "mixed" else "hex"
+        lines += ["", "name = %s" % s_["name"],
+                  "size = %s" % _numtext(s_["size"], st_),
+                  "base = 0x%08x" % s_["base"], ""]
+        for f in s_["fields"]:
+            name = f["name"] if f["count"] == 1 else \
+                "%s[%d]" % (f["name"], f["count"])
+            lines.append("%-12s %s  %-6s %%d  %s   # %s" % (
+                name, f["pack"], _numtext(f["offset"], f["style"]),
+                _numtext(f["default"], f["style"]), "a field"))
+    return "\n".join(lines) + "\n"
+
+
+def check_structs(case):
+    from rig.machine_control import MachineController
+    from rig.machine_control.struct_file import read_struct_file
+    m = _machine({"buffer": case["buffer"], "vcpu_base": scamp.VCPU_BASE})
+    repo = os.environ.get("RIG_REPO", "/repo")
+    with open(os.path.join(repo, "rig", "boot", "sark.struct"), "rb") as f:
+        stock = f.read()
+    text = stock + b"\n" + struct_text(case["structs"]).encode()
+    by_name = dict((s_["name"], s_) for s_ in case["structs"])
+    nontrivial = False
+    with World(m) as w:
+        with sut("read_struct_file"):
+            defs = read_struct_file(text)
+        with sut("MachineController(structs=...)"):
+            mc = MachineController("spinn-0-0", structs=defs)
+        for i, op in enumerate(case["ops"]):
+            s_ = by_name[op["struct"]]
+            f = [g for g in s_["fields"] if g["name"] == op["field"]][0]
+            fmt, size, top = PACKS[f["pack"]]
+            addr = s_["base"] + f["offset"]
+            n = size * f["count"]
+            x, y = op["chip"]
+            chip = m.chips[(x, y)]
+            det = {"op": i, "struct": s_["name"], "field": f["name"],
+                   "offset": f["offset"], "offset_written_as":
+                   _numtext(f["offset"], f["style"]),
+                   "expected_address": hex(addr)}
+            if f["offset"] >= 10 and f["style"] == "dec":
+                nontrivial = True
+            if op["write"]:
+                snaps = dict((xy, c.mem.snapshot())
+                             for xy, c in m.chips.items())
+                vals = op["values"]
+                with sut("write_struct_field"):
+                    mc.write_struct_field(s_["name"], f["name"],
+                                          vals[0] if f["count"] == 1
+                                          else tuple(vals), x, y)
+                want = b"".join(struct.pack(fmt, v) for v in vals)
+                require(chip.mem.read(addr, n) == want, "write_struct_field "
+                        "did not store the value at the field's offset in "
+                        "the struct", dict(det, stored=chip.mem.read(
+                            addr, n).hex(), expected=want.hex()))
+                _expect_only(m, snaps, chip, addr, addr + n,
+                             "write_struct_field")
+            else:
+                with sut("read_struct_field"):
+                    got = mc.read_struct_field(s_["name"], f["name"], x, y)
+                raw = chip.mem.read(addr, n)
+                want = [struct.unpack_from(fmt, raw, k * size)[0]
+                        for k in range(f["count"])]
+                got = [got] if f["count"] == 1 else list(got)
+                require(got == want, "read_struct_field did not return the "
+                        "bytes at the field's offset in the struct",
+                        dict(det, got=got, expected=want))
+    if m.violations:
+        raise Violation("malformed command: %s" % m.violations[0][0],
+                        m.violations[0][1])
+    return {"nontrivial": nontrivial,
+            "classes": sorted(set("offsets-" + s_["style"]
+                                  for s_ in case["structs"]))}
+
+
 CLAUSES = [
     Clause("perfect-network", check_ops,
            strategy=lambda tier: strat_ops(tier, False), rule=RULE,
@@ -391,4 +536,13 @@ CLAUSES = [
                 "substitutes retryable codes",
            examples={"quick": 400, "thorough": 8000},
            shards={"quick": 8, "thorough": 16}),
+    Clause("own-struct-file", check_structs, strategy=strat_structs,
+           rule="1-2 struct definitions of the caller's own (fields C/v/V, "
+                "arrays, gaps; numbers written in decimal, 0x-hex or mixed) "
+                "appended to the stock file and passed as structs=; 1-8 "
+                "field reads/writes judged against base+offset computed from "
+                "the generated definition; non-trivial = a field with a "
+                "decimal offset >= 10 is accessed",
+           examples={"quick": 250, "thorough": 4000},
+           shards={"quick": 4, "thorough": 16}),
 ]
